@@ -54,12 +54,15 @@ package samlidp
 //@ requires[cfg] s: serverConfigured(s)
 //@ requires[cfg] r: r != nil && w != nil
 //@ assert@call[C19] Encode #1 (enc *json.Encoder, v interface{}) hash_redacted: userHashCleared(v)
+//@ assert@call[C19] Get #each (st Store, key string, v interface{}) addresses_the_named_record: st == s.Store && key == "/users/" + r.PathValue("id")
 
 //@ contract (*Server).HandlePutUser
 //@ requires[cfg] s: serverConfigured(s)
 //@ requires[cfg] r: r != nil && w != nil && r.Body != nil
 //@ -- what is stored never carries the plaintext password
 //@ assert@call[C19] Put #1 (st Store, key string, v interface{}) uses user User no_plaintext_stored: user.PlaintextPassword == nil
+//@ assert@call[C19] Put #each (st Store, key string, v interface{}) stores_under_the_named_record: st == s.Store && key == "/users/" + r.PathValue("id")
+//@ assert@call[C19] Get #each (st Store, key string, v interface{}) reads_the_named_record: st == s.Store && key == "/users/" + r.PathValue("id")
 //@ -- a supplied password - the empty one included - always replaces the stored hash: the previous hash is looked up and
 //@ -- kept only when the request carried no password field, and what is hashed is the supplied password itself
 //@ assert@call[C19] Get #1 (st Store, key string, v interface{}) uses user User keeps_hash_only_without_password: user.PlaintextPassword == nil
@@ -109,3 +112,24 @@ package samlidp
 //@ assert@call[C19] delete #1 (m map[string]*saml.EntityDescriptor, k string) unregistered_only_after_store_delete: DeleteDone(s.Store)
 //@ assert@call[C19] WriteHeader #1 (rw http.ResponseWriter, code int) uses service Service unregistered:
 //@    !registered(s, service.Metadata.EntityID)
+
+//@ -- C19: the management handlers address exactly the record the request names: the store key is the resource prefix
+//@ -- followed by the id as the router decoded it - no second unescaping, trimming or folding (a revocation that deletes a
+//@ -- different key answers 204 and leaves the session usable)
+//@ go func resourceKey(prefix string, r *http.Request) string { return prefix + r.PathValue("id") }
+//@ contract (*Server).HandleDeleteSession
+//@ requires[cfg] s: serverConfigured(s)
+//@ requires[cfg] r: r != nil && w != nil
+//@ assert@call[C19] Delete #each (st Store, key string) addresses_the_named_record: st == s.Store && key == resourceKey("/sessions/", r)
+//@ contract (*Server).HandleGetSession
+//@ requires[cfg] s: serverConfigured(s)
+//@ requires[cfg] r: r != nil && w != nil
+//@ assert@call[C19] Get #each (st Store, key string, v interface{}) addresses_the_named_record: st == s.Store && key == resourceKey("/sessions/", r)
+//@ contract (*Server).HandleDeleteUser
+//@ requires[cfg] s: serverConfigured(s)
+//@ requires[cfg] r: r != nil && w != nil
+//@ assert@call[C19] Delete #each (st Store, key string) addresses_the_named_record: st == s.Store && key == resourceKey("/users/", r)
+//@ contract (*Server).HandleDeleteShortcut
+//@ requires[cfg] s: serverConfigured(s)
+//@ requires[cfg] r: r != nil && w != nil
+//@ assert@call[C19] Delete #each (st Store, key string) addresses_the_named_record: st == s.Store && key == resourceKey("/shortcuts/", r)
